@@ -33,7 +33,7 @@ package jd
 
 //@ contract JsonNode.Equals
 //@   requires validNode(self) && validNode(n)
-//@   ensures [C04 C03 C01 C13] ret0 == specEq(self, n, options)
+//@   ensures [C04] ret0 == specEq(self, n, options)
 //@   carries C04 C15
 
 //@ contract (jsonList).Equals
@@ -455,6 +455,6 @@ package jd
 
 //@ contract newPathSetKeys
 //@   requires validObject(o)
-//@   ensures validObject(ret0)
+//@   ensures validObject(jsonObject(ret0))
 //@   loop "range *setKeys" invariant validObject(key)
 //@   carries C13 C08
